@@ -5,6 +5,7 @@ import (
 	"encoding/json"
 	"fmt"
 	"math/big"
+	"sort"
 	"strings"
 
 	schema "github.com/jsightapi/jsight-schema-core"
@@ -274,13 +275,19 @@ func runC03(c *core.Ctx) error {
 		files[cfg] = []byte("SPECIFICATION Spec\nCONSTANTS\n  MaxTokens = 7\n  MaxDepth = 3\n  Scalars = {1, 2, 4, 5, 6, 9, 10, 12, 13, 14, 15, 16, 17, 18, 19, 20, 21}\n  Keys = {1, 3, 4, 5, 6, 7, 8, 10, 11, 12, 13}\nINVARIANTS TypeOK Balanced NoDanglingKey Emit\nCHECK_DEADLOCK FALSE\n")
 	}
 	var docs [][]jgTok
+	var sizes []int
 	for _, cf := range []string{cfg, "JsonGen_wide.cfg"} {
 		res, err := tlc.Run(tlc.Opts{Module: "JsonGen", Cfg: cf, Workers: 16, Files: files, Timeout: 0, HeapGB: 12, OnLine: func(l string) {
 			var r struct {
-				Toks []jgTok `json:"toks"`
+				Toks  []jgTok `json:"toks"`
+				Sizes []int   `json:"sizes"`
 			}
 			if err := json.Unmarshal([]byte(l), &r); err != nil {
 				c.InfraError("bad doc %s: %v", l, err)
+				return
+			}
+			if len(r.Sizes) > 0 {
+				sizes = r.Sizes
 				return
 			}
 			docs = append(docs, r.Toks)
@@ -309,6 +316,59 @@ func runC03(c *core.Ctx) error {
 		}
 		c.Nontrivial(fmt.Sprint(docs[i]))
 	})
+	// size (JsonGen!ScaledSizes): flat arrays, objects and matrices filled with the catalogue's scalars
+	{
+		var scalars []string
+		for _, d := range docs {
+			if len(d) == 1 && d[0].K == "scalar" {
+				scalars = append(scalars, nonASCII.Replace(d[0].T))
+			}
+		}
+		sort.Strings(scalars)
+		sort.Ints(sizes)
+		if len(scalars) == 0 || len(sizes) == 0 {
+			return fmt.Errorf("no scalars / sizes for the scaled documents")
+		}
+		var texts []string
+		for _, n := range sizes {
+			if !c.Thorough() && n > 5000 {
+				continue
+			}
+			var arr, obj, mat strings.Builder
+			arr.WriteString("[")
+			obj.WriteString("{")
+			mat.WriteString("[")
+			cols := 30
+			for i := 0; i < n; i++ {
+				sc := scalars[(i+n)%len(scalars)]
+				if i > 0 {
+					arr.WriteString(", ")
+					obj.WriteString(", ")
+				}
+				arr.WriteString(sc)
+				fmt.Fprintf(&obj, "\"k%d\": %s", i, sc)
+				switch {
+				case i%cols == 0 && i > 0:
+					mat.WriteString("], [")
+				case i%cols == 0:
+					mat.WriteString("[")
+				default:
+					mat.WriteString(", ")
+				}
+				mat.WriteString(sc)
+			}
+			arr.WriteString("]")
+			obj.WriteString("}")
+			mat.WriteString("]]")
+			texts = append(texts, arr.String(), obj.String(), mat.String())
+		}
+		core.ParallelFor(len(texts), func(i int) {
+			cs := jgCase{Text: texts[i], Src: "JsonGen!ScaledSizes"}
+			c.CountEval(1)
+			c.Report(cs, jgEval(cs))
+		})
+		c.Set("scaled_documents", len(texts))
+	}
 	// second direction: RFC 8259 documents of the repository's corpus without exponents / duplicate keys
 	n := 0
 	for _, it := range corpus.Harvest(2000, ".") {
